@@ -8,10 +8,10 @@ let sig_of_code (c : int) : ostring = match c with
   | 301 -> "replay-without-possdup" | 302 -> "replay-not-contiguous" | 303 -> "gapfill-malformed" | 304 -> "gapfill-skips-replayable"
   | 305 -> "replayed-admin-or-refused" | 306 -> "replay-body-differs" | 307 -> "replay-no-origsendingtime" | 308 -> "replay-wrong-end"
   | 309 -> "reply-to-empty-range"
-  | 401 -> "gap-request-wrong" | 402 -> "spurious-resend-request" | 403 -> "kept-message-not-delivered" | 404 -> "recovery-not-ended" | 405 -> "kept-message-lost"
-  | 601 -> "callback-past-gate" | 602 -> "wrong-reaction" | 603 -> "reject-shape"
+  | 401 -> "gap-request-wrong" | 402 -> "spurious-resend-request" | 403 -> "kept-message-not-delivered" | 404 -> "recovery-not-ended" | 405 -> "kept-message-lost" | 406 -> "timer-changed-recovery-state"
+  | 601 -> "callback-past-gate" | 602 -> "wrong-reaction" | 603 -> "reject-shape" | 604 -> "logon-past-gate"
   | 701 -> "disconnect-changed-store" | 702 -> "connect-changed-store" | 703 -> "reset-logon-shape" | 704 -> "seqreset-backwards"
-  | 705 -> "reset-without-cause" | 706 -> "reset-option-ineffective" | 707 -> "reset-logon-reply" | 708 -> "reset-logon-not-number-1" | 709 -> "received-reset-ignored"
+  | 705 -> "reset-without-cause" | 706 -> "reset-option-ineffective" | 707 -> "reset-logon-reply" | 708 -> "reset-logon-not-number-1" | 709 -> "received-reset-ignored" | 710 -> "logout-reset-skipped"
   | 801 -> "first-message-not-logon" | 802 -> "app-message-outside-logon" | 803 -> "fromapp-outside-logon" | 804 -> "double-onlogout"
   | 805 -> "write-after-close" | 806 -> "closed-without-onlogout"
   | 2001 -> "testrequest-echo" | 2002 -> "heartbeat-timer" | 2003 -> "peer-timer" | 2004 -> "dead-peer" | 2005 -> "pending-cancel"
